@@ -18,9 +18,13 @@ RULE = ('T2/T3: one request head (request line + Host field) through the real Se
 	'raw and with a leading slash, absolute-form with five authorities, authority-form (CONNECT), crossed with ~45 Host forms (reg-name, IPv4, [v6], '
 	'+-port, port 0/65535/65536, 4301 digits, Unicode digits and RFC 2047 words, parameters, duplicates, invalid, absent), HTTP/1.0 and 1.1, three server '
 	'configurations, special targets (userinfo, fragment, schemes, IDN, ports) and a token-level malformed stream; Host(value) directly. '
+	'Section H: every gen-delim / sub-delim and % SP \\ " < > ^ ` { | } percent-encoded in both hex cases, literal where a segment may hold it, doubly encoded, overlong and as Unicode look-alikes (/ :), '
+	'at the END of a segment followed by // /// /./ /../ /%2e/ /%2E%2e/ /.// and a trailing // /. /.. and at the BEGINNING of a segment preceded by the same, in origin-form and absolute-form (two prefixes in full, six rotating; thorough: all eight); '
+	'section I: ~90 foreign schemes (ws wss ftp gopher file mailto urn h2 https+x ..., mixed case, look-alikes, every scheme the working tree registers) and 11 spellings of http / https x 21 target shapes; '
+	'section J: random paths over the union alphabet (a target that begins with ":" is kept out: URI.parse reads it as an empty scheme, reported). '
 	'Observation = the eight URI slots + class default port + method + version of the delivered request, or status code (+ Location for 301), or escaping exception. '
 	'inet_pton, the IDNA codec, str.lower on non-ASCII text, HeaderElement.parse up to the constructor and \\d/int() on non-ASCII digits are instantiated by the pairs recorded from the run. '
-	'Oracle (independent of the model): path_ok, delivered path = segment-wise decoding of the wire path, scheme, no userinfo/fragment, host and port = independent reading of the Host value '
+	'Oracle (independent of the model): path_ok, delivered path = segment-wise decoding of the wire path, a target whose RFC 3986 scheme is not http/https (ASCII case-insensitive) is never delivered and the delivered scheme is the lower-cased wire scheme, no userinfo/fragment, host and port = independent reading of the Host value '
 	'(or configured defaults), 301 Location = RFC 3986 5.2.4 of the decoded path, only 301/400/505 otherwise. non-trivial = distinct (outcome, code, form, Host class)')
 EXHAUSTIVE = {'quick': True, 'thorough': True}
 TRUSTED = ['harness/tables/servertarget.py (T1: class of a fresh Request URI, HTTP-based scheme keys, accepted-scheme tuple, MAX_URI_LENGTH = inf, RE_HOSTNAME class incl. every non-ASCII code point, HOSTPORT probes, digit-limit probe) and the tables of the composed models',
@@ -351,6 +355,50 @@ METHODS = [b'GET', b'POST', b'HEAD', b'OPTIONS', b'CONNECT', b'PUT', b'connect',
 VERSIONS = [b'HTTP/1.1', b'HTTP/1.0', b'HTTP/1.2', b'HTTP/2.0', b'HTTP/0.9', b'HTTP/1.10', b'HTTP/01.1', b'http/1.1', b'HTTP/1', b'HTTP/1.1.1', b'HTTP/1.' + b'1' * 4301, b'HTTPS/1.1', b'']
 
 
+# H. percent-encoded (both hex cases) and literal delimiters at the edge of a segment, next to empty segments and dot segments
+GEN_DELIMS = b':/?#[]@'
+SUB_DELIMS = b"!$&'()*+,;="
+OTHER_DELIMS = b'% \\"<>^`{|}'
+
+
+def _edge_spellings():
+	out = []
+	for ch in GEN_DELIMS + SUB_DELIMS + OTHER_DELIMS:
+		lo, up = b'%%%02x' % ch, b'%%%02X' % ch
+		out.append(lo)
+		if up != lo:
+			out.append(up)
+	out.extend(bytes([ch]) for ch in SUB_DELIMS + b':@')   # literal where RFC 3986 allows the octet in a segment (pchar)
+	out.extend([b'%253a', b'%252F', b'%2525', b'%c0%af', b'%ef%bc%8f', b'%e2%88%95', b'%EF%BC%9A'])   # doubly encoded, overlong slash, FULLWIDTH SOLIDUS, DIVISION SLASH, FULLWIDTH COLON
+	return out
+
+
+EDGES = _edge_spellings()
+# %s = a segment that ENDS with the delimiter / a segment that BEGINS with it
+CTX_AFTER = [b'%s//y', b'%s///y', b'%s/./y', b'%s/../y', b'%s//', b'%s/.', b'%s/..', b'%s/%%2e/y', b'%s/%%2E%%2e/y', b'%s/.//y', b'%s/y']
+CTX_BEFORE = [b'x//%s', b'x///%s', b'x/./%s', b'x/../%s', b'/%s', b'./%s', b'../%s', b'x/%%2e/%s', b'x/%%2e%%2E/%s', b'x//./%s', b'x/%s']
+EDGE_PREFIX_ALL = [b'/', b'http://h/']
+EDGE_PREFIX_ROT = [b'/go/', b'https://H:8443/p/', b'/a/b/', b'HTTP://EXAMPLE.com:81/', b'/go/http%3a//', b'http://[::1]/q%3A/']
+
+# I. absolute-form (and scheme-only) targets over foreign schemes; http / https in any capitalisation are the only ones allowed
+FOREIGN_SCHEMES = [b'ws', b'wss', b'WS', b'WSS', b'Ws', b'wSs', b'wsS', b'ftp', b'FTP', b'ftps', b'sftp', b'tftp', b'gopher', b'Gopher', b'file', b'FILE', b'mailto', b'urn', b'h2', b'h2c', b'H2',
+	b'https+x', b'http+unix', b'https+ws', b'https-x', b'http.x', b'httpx', b'httpss', b'shttp', b'xhttp', b'htt', b'http2', b'https2', b'http1.1', b'ldap', b'ldaps', b'imap', b'imaps', b'mms', b'nfs',
+	b'svn+ssh', b'git+ssh', b'git', b'ssh', b'sip', b'sips', b'news', b'nntp', b'telnet', b'rtsp', b'irc', b'data', b'javascript', b'about', b'blob', b'tel', b'coap', b'dav', b'webcal', b'feed',
+	b'view-source', b'ipp', b'smb', b'redis', b'unix', b'jar', b'x', b'z39.50r', b'1http', b'-http', b'+http', b'.http', b'http%73', b'%68ttp', b'http\xc5\xbf', b'htt\xef\xbd\x90', b'\xe2\x84\x8attp']
+ALLOWED_SCHEMES = [b'http', b'https', b'HTTP', b'HTTPS', b'Http', b'Https', b'hTTp', b'httpS', b'hTtPs', b'HTTPs', b'hTTPS']
+SCHEME_SHAPES = [b'%s://h/', b'%s://h/x?q=1', b'%s://example.com:81/a/b', b'%s://h', b'%s://h/a/../b', b'%s://h//x', b'%s://h/%%2e', b'%s:/x', b'%s:x', b'%s:', b'%s:///x', b'%s://u@h/', b'%s://h/#f',
+	b'%s://[::1]:8/x', b'%s://:p@h/x', b'%s://u:p@h/', b'%s://h:0/', b'%s:u@h', b'%s:a:b:c', b'%s:*', b'%s://h/a%%3a//b']
+
+
+def _registered_schemes():
+	"""every scheme the working tree registers (a generator input only: the oracle's expectation does not depend on it)"""
+	try:
+		from httoop.uri.uri import URI
+		return sorted(bytes(k) for k in URI.SCHEMES if isinstance(k, (bytes, bytearray)))
+	except Exception:
+		return []
+
+
 def _rot(seq, i):
 	return seq[i % len(seq)]
 
@@ -446,6 +494,48 @@ def gen_cases(rng, tier):
 	for _ in range(3000 if big else 300):
 		v = ''.join(rng.choice(['h', 'a', ':', ':', '8', '0', '[', ']', '.', '1', '::1', ' ', '\n', '\u0663', '\u00e4', 'X', '-', '_', '/', '@']) for _ in range(rng.randint(0, 7)))
 		cases.append({'k': 'host', 'v': v})
+	# H. delimiters at the edge of a segment x empty / dot segment contexts, origin-form and absolute-form
+	prefixes_all = EDGE_PREFIX_ALL + (EDGE_PREFIX_ROT if big else [])
+	for e in EDGES:
+		for ctxs, segs in ((CTX_AFTER, (b'x' + e, e, b'http' + e)), (CTX_BEFORE, (e + b'x', e, e + b'http'))):
+			for ctx in ctxs:
+				for seg in (segs if big else segs[:2]):
+					for pre in prefixes_all:
+						add(b'GET', pre + ctx % (seg,))
+					if not big:
+						add(_rot([b'GET', b'POST', b'HEAD'], i), _rot(EDGE_PREFIX_ROT, i) + ctx % (seg,))
+	for t in (b'/go/http%3a//example.org/x', b'/go/http%3A//example.org/x', b'http://h/go/http%3a//example.org/x', b'https://h/go/HTTPS%3A//example.org/x', b'/a%3A//b', b'/a%3a//', b'/%3a//', b'/%3a///x',
+			b'/go/http%3a%2f%2fexample.org/x', b'/go/http:%2f%2fexample.org/x', b'/go/http%3a/%2fexample.org/x', b'/go/http%3a%2f/example.org/x', b'/x%3a/./y', b'/x%3a/../y', b'/x%3a/%2e%2e/y', b'/x%3a//../y'):
+		for ver in (b'HTTP/1.1', b'HTTP/1.0'):
+			add(b'GET', t, ver, [b'hh:81'], cfg=0)
+			add(b'GET', t, ver, [], cfg=0)
+	# I. schemes: foreign ones must never be delivered, http / https in any capitalisation may be
+	schemes = list(FOREIGN_SCHEMES)
+	for sc in _registered_schemes():
+		for v in (sc, sc.upper(), sc.capitalize()):
+			if v.lower() not in (b'http', b'https') and v not in schemes:
+				schemes.append(v)
+	for sc in schemes + ALLOWED_SCHEMES:
+		for n, shape in enumerate(SCHEME_SHAPES):
+			t = shape % (sc,)
+			add(_rot([b'GET', b'GET', b'POST', b'OPTIONS', b'HEAD'], i), t, b'HTTP/1.1', [_rot(HOST_GOOD, i)], cfg=_rot([0, 1, 2], i))
+			if n < 5 or big:
+				add(b'GET', t, b'HTTP/1.0', [], cfg=_rot([0, 1, 2], i))
+			if n < 2 or big:
+				add(b'GET', t, b'HTTP/1.0', [b'hh:81'], cfg=0)
+	# J. random longer paths over the token alphabet extended with the edge spellings, under random schemes
+	for _ in range(3000 if big else 400):
+		t = b''.join(rng.choice(TOKENS[:9] + [b'/', b'/', b'/', b'a', b'http'] + EDGES) for _ in range(rng.randint(3, 8)))
+		if rng.random() < 0.8:
+			t = b'/' + t
+		else:
+			t = t.lstrip(b':')   # a target that begins with ':' is read by URI.parse as an empty scheme (':/x' is delivered as '/x'): reported to the lead, kept out of the random stream
+		r = rng.random()
+		if r < 0.3:
+			t = rng.choice(ALLOWED_SCHEMES) + b'://' + rng.choice([b'h', b'H:81', b'[::1]']) + t
+		elif r < 0.4:
+			t = rng.choice(schemes) + b'://h' + t
+		add(rng.choice([b'GET', b'GET', b'POST']), t, rng.choice([b'HTTP/1.1', b'HTTP/1.1', b'HTTP/1.0']), [rng.choice(HOST_GOOD)] if rng.random() < 0.85 else [], cfg=rng.randrange(3))
 	return cases
 
 
@@ -539,6 +629,7 @@ def oracle(c, o):
 	parts = RFC3986.match((b'//' + target) if method == b'CONNECT' else target) if target is not None else None
 	decoded = decode_path(parts.group(3)) if parts else None
 	cfg = CFGS[c['cfg']]
+	wire_scheme = parts.group(1) if parts is not None and method != b'CONNECT' else None   # RFC 3986 appendix B reading of the wire target
 	if o['out'] == 'status':
 		if o['code'] not in (301, 400, 505):
 			return 'status: unexpected status %d for a request head' % (o['code'],)
@@ -569,6 +660,8 @@ def oracle(c, o):
 	# ---- delivered
 	u = [bytes.fromhex(x).decode('utf-8') if isinstance(x, str) else x for x in o['uri']]
 	scheme, user, pw, host, port, path, query, frag = u
+	if wire_scheme is not None and wire_scheme.lower() not in (b'http', b'https'):
+		return 'scheme-foreign: the target %r names the scheme %r, which is neither http nor https, yet the request was delivered (scheme slot %r)' % (target, wire_scheme, scheme)
 	if not path_ok(path):
 		return 'path: delivered path %r is not sanitised' % (path,)
 	if parts is None or decoded is None:
@@ -580,6 +673,8 @@ def oracle(c, o):
 		return 'path: delivered path %r is not the decoding %r of the wire path' % (path, decoded)
 	if scheme not in ('http', 'https'):
 		return 'scheme: delivered scheme %r' % (scheme,)
+	if wire_scheme is not None and scheme != wire_scheme.lower().decode('ascii'):
+		return 'scheme: delivered scheme %r, the target says %r' % (scheme, wire_scheme)
 	if user or pw:
 		return 'userinfo: delivered with user information %r:%r' % (user, pw)
 	if frag:
